@@ -105,6 +105,8 @@ def fits(ids, shape):
         e = cat["by_id"][i]
         if pos > 0 and e["first_only"]:
             return False
+        if shape in e.get("not_shapes", ()):
+            return False
         if kind not in e["in"]:
             return False
         if pos == 0 and need_of(e, shape) is None:
